@@ -6,6 +6,7 @@ import CCVerif.Lemmas.EvalExamples7
 import CCVerif.Lemmas.EvalExamples8
 import CCVerif.Lemmas.EvalExamples7n
 import CCVerif.Lemmas.EvalNestedExamples
+import CCVerif.Lemmas.EvalBlocksPatExamples
 /-!
 # C01 — evaluation returns the set-theoretic value
 
@@ -924,5 +925,105 @@ example : (evaluate 30 Examples7.env7 Examples9.d9).1 =
   decide
 example : bindPat Examples9.pat9 (.t [.t [.e 1, .e 2], .e 3]) .nil =
     some (.val "c" (.e 3) (.val "b" (.e 2) (.val "a" (.e 1) .nil))) := by rfl
+
+/-! ## stage 10: tuple patterns in the blocks of `I{}`, in the variable position of `R{}`, inside enumerated declarations
+(and, closing the earlier stages under each other, anywhere else: `∀ ∃ D{}`; any nesting depth; under / over `R{}`, `I{}`,
+enumerated declarations, filters of the form over plain variables)
+
+`Normalizer::ProcessTupleDeclaration` treats a pattern the same wherever it stands (`Normalizer::Recursion`,
+`Normalizer::Imperative`, `Normalizer::Quantifier` after `EnumDeclaration`): ONE generated local, every leaf in the scope
+replaced by its chain of projections (scope of a block pattern of `I{}`: the FOLLOWING blocks and the result; of `R{}`:
+condition and step, not the initial value; of a member of an enumerated declaration: the body, not the copies of the
+domain).  The evaluator's block machine (`impLoop`), `recLoop` and the nested quantifiers then iterate / assign the
+generated local like any plain variable.
+
+Route (a reduction, no second copy of the simulation): the normal form has PLAIN variables only, so the machine side is
+the proved simulation of stages 4 / 5 / 8 (`simF`) on the form `es` of the expression over the generated locals; what is
+new is a statement about the reference semantics alone.  `PE S Γ Δ e es` (`Lemmas/EvalBlocksPatSound.lean`, "pattern
+elimination"): `es` is `e` with every declaration - plain or pattern, of any depth - replaced by one plain variable `w`
+and every leaf by its projection chain of `w`; rules for literals, globals, variables, all unary / binary / n-ary ground
+constructs, `∈` (both forms), `pr`, `Pr`, `∀ ∃ D{}`, enumerated declarations (each member plain or pattern), `R{}` (both
+forms), `I{}` (`:∈`, `:=`, condition blocks), arbitrarily nested.  `PE.sound`: a value of `es` under `⟦·⟧` at fuel `f` is
+the value of `e` at every fuel `≥ f` - the loop lemmas of stage 4 / 5 with the pattern case on the reference side
+(`recSem_mono`, `impList_rel`, `quantSem_rel` in `Lemmas/EvalBlocksPat.lean`), the pattern bound by recursive projection
+(`bind_relW`).  Binding through a pattern is defined on values of the SHAPE of the pattern only, so the rules carry the
+typing of the reference values that get bound (`DomTy` for domains, `ValTy` for the initial value / step of `R{}` and the
+right side of `:=`; discharged by `DT`, `ValTy.arith`, `ValTy.tuple`).
+NOT covered: filters and calls inside an expression with patterns (no `PE` rule); that the normaliser returns the normal
+form `n` of `es` for `e` is a per-expression hypothesis (a closed computation, as in stages 7 and 9) - in particular the
+generated names are whatever the normaliser chose, colliding candidates included. -/
+
+/-- stage 10: the expression goes by pattern elimination to an expression of stage 8 over plain variables whose normal
+form is the normaliser's answer for the expression itself -/
+def Stage10 (env : Env) (e : Ast) : Prop :=
+  ∃ G τ es n f0, GlobalsOK env G ∧ FragF env G 6 [] [] es n τ ∧ PE (senvOf env) [] [] e es ∧
+    normalizeTree env.funcs f0 e = some n
+
+/-- **eval_refines_denote_partial10_stable**: the refinement for closed expressions with tuple patterns in `I{}` blocks,
+in `R{}`, inside enumerated declarations (and in `∀ ∃ D{}`), any depth: a value returned by `Interpreter::Evaluate` - which
+runs its loops on ONE generated local per pattern and projection chains for the leaves - is the value the reference
+semantics assigns to the ORIGINAL tree (leaves bound by recursive projection), at the evaluator's fuel and at every
+larger one. -/
+theorem eval_refines_denote_partial10_stable (env : Env) (e : Ast) (h : Stage10 env e) (fuel f' : Nat) (hf' : fuel ≤ f') :
+    (∀ v, (evaluate fuel env e).1 = .ok v → denote (senvOf env) f' .nil e = some (.val v)) ∧
+    (∀ b, (evaluate fuel env e).1 = .okBool b → denote (senvOf env) f' .nil e = some (.bool b)) := by
+  obtain ⟨G, τ, es, n, f0, hG, hf, hu, hn⟩ := h
+  rcases evaluate_blocksPat hG hf hu hn fuel with hg | ho | ⟨eid, pos, he, _⟩
+  · cases τ with
+    | ty ty =>
+      obtain ⟨v, hr, _, _, hd⟩ := hg
+      constructor
+      · intro v' hv; rw [hr] at hv; injection hv with hv; rw [← hv]; exact hd f' hf'
+      · intro b hb; rw [hr] at hb; cases hb
+    | logic =>
+      obtain ⟨b, hr, hd⟩ := hg
+      constructor
+      · intro v hv; rw [hr] at hv; cases hv
+      · intro b' hb; rw [hr] at hb; injection hb with hb; rw [← hb]; exact hd f' hf'
+  · constructor <;> intro x hx <;> rw [ho] at hx <;> cases hx
+  · constructor <;> intro x hx <;> rw [he] at hx <;> cases hx
+
+/-- **eval_refines_denote_partial10**: `eval_refines_denote_statement` on stage 10 (patterns in `I{}` / `R{}` / enumerated
+declarations, combined with each other and with the plain-variable constructs of stages 1-5).
+Missing from the full statement: filters / calls inside an expression with patterns, reference values outside the typed
+classes without their typing hypothesis, the general proof that the normaliser returns the normal form of the
+pattern-free form, `Z`, `ℬ` beyond `2^POW_BOUND`, the any-type typings. -/
+theorem eval_refines_denote_partial10 : eval_refines_denote_statement Stage10 :=
+  fun env e h fuel => eval_refines_denote_partial10_stable env e h fuel fuel (Nat.le_refl _)
+
+/-- **pattern_elim_sound_partial10**: the reduction itself, on the reference side alone: for closed expressions the value
+of the form over plain variables and projection chains is the value of the form with patterns (at every larger fuel) -/
+theorem pattern_elim_sound_partial10 (S : SEnv) (e es : Ast) (h : PE S [] [] e es) (f : Nat) (v : SemVal)
+    (hv : denote S f .nil es = some v) (f' : Nat) (hf' : f ≤ f') : denote S f' .nil e = some v :=
+  h.sound .nil .nil (URel.nil _ _) (EnvTy.nil _) f v hv f' (by omega)
+
+/-- **block_pattern_binds_by_projection**: one declaration (plain or pattern of any depth) against the plain variable
+that carries it, on a value of the type of the pattern: the reference binding is defined and every leaf `x` with path `π`
+holds `pr_π` of the value the carrier holds -/
+theorem block_pattern_binds_by_projection (p : Ast) (w : String) (τ : Ty) (v : Val) (hd : DeclOK [] p w τ)
+    (hv : Ty.hasTy v τ = true) :
+    ∃ ρ', bindPat p v .nil = some ρ' ∧ URel (leafDelta p w) ρ' (.val w v .nil) := by
+  obtain ⟨ρ', h1, h2, _⟩ := bind_relW (URel.nil .nil .nil) (EnvTy.nil .nil) hd v hv
+  exact ⟨ρ', h1, by simpa using h2⟩
+
+/-! non-vacuity of stage 10 (`Lemmas/EvalBlocksPatExamples.lean`), over `X1 = {1,2}`:
+`I{(a,b) | (a,b):∈X1×X1; a=b} = {(1,1),(2,2)}`, `R{(a,b):=(0,0) | a<3 | (a+1,b+a)} = (3,3)`, `∀(a,b),c∈X1×X1 a=a`;
+forms over the generated local `@ab`: `I{(pr1(@ab),pr2(@ab)) | @ab:∈X1×X1; pr1(@ab)=pr2(@ab)}`,
+`R{@ab:=(0,0) | pr1(@ab)<3 | (pr1(@ab)+1,pr2(@ab)+pr1(@ab))}`, `∀@ab,c∈X1×X1 pr1(@ab)=pr1(@ab)` (normal form: nested) -/
+example : Stage10 Examples7.env7 Examples10.i10 :=
+  ⟨_, _, _, _, 10, Examples7.globalsOK_7, Examples10.i10s_frag.toF (Nat.le_refl _), Examples10.i10_pe, Examples10.i10_normalizes⟩
+example : Stage10 Examples7.env7 Examples10.r10 :=
+  ⟨_, _, _, _, 10, Examples7.globalsOK_7, Examples10.r10s_frag.toF (Nat.le_refl _), Examples10.r10_pe, Examples10.r10_normalizes⟩
+example : Stage10 Examples7.env7 Examples10.q10 :=
+  ⟨_, _, _, _, 10, Examples7.globalsOK_7, Examples10.q10s_frag.toF (Nat.le_refl _), Examples10.q10_pe, Examples10.q10_normalizes⟩
+example : normalizeTree Examples7.env7.funcs 10 Examples10.i10 = some Examples10.i10s := by rfl
+example : normalizeTree Examples7.env7.funcs 10 Examples10.q10 = normalizeTree Examples7.env7.funcs 10 Examples10.q10s := by rfl
+example : (evaluate 30 Examples7.env7 Examples10.i10).1 = .ok (.s [.t [.e 1, .e 1], .t [.e 2, .e 2]]) ∧
+    denote (senvOf Examples7.env7) 30 .nil Examples10.i10 = some (.val (.s [.t [.e 1, .e 1], .t [.e 2, .e 2]])) := by decide
+example : (evaluate 30 Examples7.env7 Examples10.r10).1 = .ok (.t [.e 3, .e 3]) ∧
+    denote (senvOf Examples7.env7) 30 .nil Examples10.r10 = some (.val (.t [.e 3, .e 3])) := by decide
+example : (evaluate 30 Examples7.env7 Examples10.q10).1 = .okBool true ∧
+    denote (senvOf Examples7.env7) 30 .nil Examples10.q10 = some (.bool true) := by decide
+example : DeclOK [] Examples10.patAB "@ab" Examples10.XX := Examples10.declOK10 _ (by decide)
 
 end CCVerif.Eval
